@@ -13,76 +13,149 @@ func init() { simrt.RegisterSites(map[int]string{site: "sync/atomic"}) }
 
 type Int64 struct{ v atomic.Int64 }
 
-func (a *Int64) Load() int64                    { simrt.Yield(site); return a.v.Load() }
-func (a *Int64) Store(x int64)                  { simrt.Yield(site); a.v.Store(x) }
-func (a *Int64) Add(d int64) int64              { simrt.Yield(site); return a.v.Add(d) }
-func (a *Int64) Swap(x int64) int64             { simrt.Yield(site); return a.v.Swap(x) }
-func (a *Int64) CompareAndSwap(o, n int64) bool { simrt.Yield(site); return a.v.CompareAndSwap(o, n) }
+func (a *Int64) Load() int64        { simrt.Yield(site); return a.v.Load() }
+func (a *Int64) Store(x int64)      { simrt.Yield(site); a.v.Store(x); simrt.Yield(site) }
+func (a *Int64) Add(d int64) int64  { simrt.Yield(site); r := a.v.Add(d); simrt.Yield(site); return r }
+func (a *Int64) Swap(x int64) int64 { simrt.Yield(site); r := a.v.Swap(x); simrt.Yield(site); return r }
+func (a *Int64) CompareAndSwap(o, n int64) bool {
+	simrt.Yield(site)
+	r := a.v.CompareAndSwap(o, n)
+	simrt.Yield(site)
+	return r
+}
 
 type Uint64 struct{ v atomic.Uint64 }
 
-func (a *Uint64) Load() uint64                    { simrt.Yield(site); return a.v.Load() }
-func (a *Uint64) Store(x uint64)                  { simrt.Yield(site); a.v.Store(x) }
-func (a *Uint64) Add(d uint64) uint64             { simrt.Yield(site); return a.v.Add(d) }
-func (a *Uint64) Swap(x uint64) uint64            { simrt.Yield(site); return a.v.Swap(x) }
-func (a *Uint64) CompareAndSwap(o, n uint64) bool { simrt.Yield(site); return a.v.CompareAndSwap(o, n) }
+func (a *Uint64) Load() uint64   { simrt.Yield(site); return a.v.Load() }
+func (a *Uint64) Store(x uint64) { simrt.Yield(site); a.v.Store(x); simrt.Yield(site) }
+func (a *Uint64) Add(d uint64) uint64 {
+	simrt.Yield(site)
+	r := a.v.Add(d)
+	simrt.Yield(site)
+	return r
+}
+func (a *Uint64) Swap(x uint64) uint64 {
+	simrt.Yield(site)
+	r := a.v.Swap(x)
+	simrt.Yield(site)
+	return r
+}
+func (a *Uint64) CompareAndSwap(o, n uint64) bool {
+	simrt.Yield(site)
+	r := a.v.CompareAndSwap(o, n)
+	simrt.Yield(site)
+	return r
+}
 
 type Int32 struct{ v atomic.Int32 }
 
-func (a *Int32) Load() int32                    { simrt.Yield(site); return a.v.Load() }
-func (a *Int32) Store(x int32)                  { simrt.Yield(site); a.v.Store(x) }
-func (a *Int32) Add(d int32) int32              { simrt.Yield(site); return a.v.Add(d) }
-func (a *Int32) Swap(x int32) int32             { simrt.Yield(site); return a.v.Swap(x) }
-func (a *Int32) CompareAndSwap(o, n int32) bool { simrt.Yield(site); return a.v.CompareAndSwap(o, n) }
+func (a *Int32) Load() int32        { simrt.Yield(site); return a.v.Load() }
+func (a *Int32) Store(x int32)      { simrt.Yield(site); a.v.Store(x); simrt.Yield(site) }
+func (a *Int32) Add(d int32) int32  { simrt.Yield(site); r := a.v.Add(d); simrt.Yield(site); return r }
+func (a *Int32) Swap(x int32) int32 { simrt.Yield(site); r := a.v.Swap(x); simrt.Yield(site); return r }
+func (a *Int32) CompareAndSwap(o, n int32) bool {
+	simrt.Yield(site)
+	r := a.v.CompareAndSwap(o, n)
+	simrt.Yield(site)
+	return r
+}
 
 type Uint32 struct{ v atomic.Uint32 }
 
-func (a *Uint32) Load() uint32                    { simrt.Yield(site); return a.v.Load() }
-func (a *Uint32) Store(x uint32)                  { simrt.Yield(site); a.v.Store(x) }
-func (a *Uint32) Add(d uint32) uint32             { simrt.Yield(site); return a.v.Add(d) }
-func (a *Uint32) CompareAndSwap(o, n uint32) bool { simrt.Yield(site); return a.v.CompareAndSwap(o, n) }
+func (a *Uint32) Load() uint32   { simrt.Yield(site); return a.v.Load() }
+func (a *Uint32) Store(x uint32) { simrt.Yield(site); a.v.Store(x); simrt.Yield(site) }
+func (a *Uint32) Add(d uint32) uint32 {
+	simrt.Yield(site)
+	r := a.v.Add(d)
+	simrt.Yield(site)
+	return r
+}
+func (a *Uint32) CompareAndSwap(o, n uint32) bool {
+	simrt.Yield(site)
+	r := a.v.CompareAndSwap(o, n)
+	simrt.Yield(site)
+	return r
+}
 
 type Bool struct{ v atomic.Bool }
 
-func (a *Bool) Load() bool                    { simrt.Yield(site); return a.v.Load() }
-func (a *Bool) Store(x bool)                  { simrt.Yield(site); a.v.Store(x) }
-func (a *Bool) Swap(x bool) bool              { simrt.Yield(site); return a.v.Swap(x) }
-func (a *Bool) CompareAndSwap(o, n bool) bool { simrt.Yield(site); return a.v.CompareAndSwap(o, n) }
+func (a *Bool) Load() bool       { simrt.Yield(site); return a.v.Load() }
+func (a *Bool) Store(x bool)     { simrt.Yield(site); a.v.Store(x); simrt.Yield(site) }
+func (a *Bool) Swap(x bool) bool { simrt.Yield(site); r := a.v.Swap(x); simrt.Yield(site); return r }
+func (a *Bool) CompareAndSwap(o, n bool) bool {
+	simrt.Yield(site)
+	r := a.v.CompareAndSwap(o, n)
+	simrt.Yield(site)
+	return r
+}
 
 type Value = atomic.Value
 
 type Pointer[T any] struct{ v atomic.Pointer[T] }
 
-func (a *Pointer[T]) Load() *T                    { simrt.Yield(site); return a.v.Load() }
-func (a *Pointer[T]) Store(x *T)                  { simrt.Yield(site); a.v.Store(x) }
-func (a *Pointer[T]) Swap(x *T) *T                { simrt.Yield(site); return a.v.Swap(x) }
-func (a *Pointer[T]) CompareAndSwap(o, n *T) bool { simrt.Yield(site); return a.v.CompareAndSwap(o, n) }
+func (a *Pointer[T]) Load() *T     { simrt.Yield(site); return a.v.Load() }
+func (a *Pointer[T]) Store(x *T)   { simrt.Yield(site); a.v.Store(x); simrt.Yield(site) }
+func (a *Pointer[T]) Swap(x *T) *T { simrt.Yield(site); r := a.v.Swap(x); simrt.Yield(site); return r }
+func (a *Pointer[T]) CompareAndSwap(o, n *T) bool {
+	simrt.Yield(site)
+	r := a.v.CompareAndSwap(o, n)
+	simrt.Yield(site)
+	return r
+}
 
-func AddInt64(p *int64, d int64) int64     { simrt.Yield(site); return atomic.AddInt64(p, d) }
-func AddUint64(p *uint64, d uint64) uint64 { simrt.Yield(site); return atomic.AddUint64(p, d) }
-func AddInt32(p *int32, d int32) int32     { simrt.Yield(site); return atomic.AddInt32(p, d) }
-func AddUint32(p *uint32, d uint32) uint32 { simrt.Yield(site); return atomic.AddUint32(p, d) }
-func LoadInt64(p *int64) int64             { simrt.Yield(site); return atomic.LoadInt64(p) }
-func LoadUint64(p *uint64) uint64          { simrt.Yield(site); return atomic.LoadUint64(p) }
-func LoadInt32(p *int32) int32             { simrt.Yield(site); return atomic.LoadInt32(p) }
-func LoadUint32(p *uint32) uint32          { simrt.Yield(site); return atomic.LoadUint32(p) }
-func StoreInt64(p *int64, v int64)         { simrt.Yield(site); atomic.StoreInt64(p, v) }
-func StoreUint64(p *uint64, v uint64)      { simrt.Yield(site); atomic.StoreUint64(p, v) }
-func StoreInt32(p *int32, v int32)         { simrt.Yield(site); atomic.StoreInt32(p, v) }
-func StoreUint32(p *uint32, v uint32)      { simrt.Yield(site); atomic.StoreUint32(p, v) }
+func AddInt64(p *int64, d int64) int64 {
+	simrt.Yield(site)
+	r := atomic.AddInt64(p, d)
+	simrt.Yield(site)
+	return r
+}
+func AddUint64(p *uint64, d uint64) uint64 {
+	simrt.Yield(site)
+	r := atomic.AddUint64(p, d)
+	simrt.Yield(site)
+	return r
+}
+func AddInt32(p *int32, d int32) int32 {
+	simrt.Yield(site)
+	r := atomic.AddInt32(p, d)
+	simrt.Yield(site)
+	return r
+}
+func AddUint32(p *uint32, d uint32) uint32 {
+	simrt.Yield(site)
+	r := atomic.AddUint32(p, d)
+	simrt.Yield(site)
+	return r
+}
+func LoadInt64(p *int64) int64        { simrt.Yield(site); return atomic.LoadInt64(p) }
+func LoadUint64(p *uint64) uint64     { simrt.Yield(site); return atomic.LoadUint64(p) }
+func LoadInt32(p *int32) int32        { simrt.Yield(site); return atomic.LoadInt32(p) }
+func LoadUint32(p *uint32) uint32     { simrt.Yield(site); return atomic.LoadUint32(p) }
+func StoreInt64(p *int64, v int64)    { simrt.Yield(site); atomic.StoreInt64(p, v); simrt.Yield(site) }
+func StoreUint64(p *uint64, v uint64) { simrt.Yield(site); atomic.StoreUint64(p, v); simrt.Yield(site) }
+func StoreInt32(p *int32, v int32)    { simrt.Yield(site); atomic.StoreInt32(p, v); simrt.Yield(site) }
+func StoreUint32(p *uint32, v uint32) { simrt.Yield(site); atomic.StoreUint32(p, v); simrt.Yield(site) }
 func CompareAndSwapInt64(p *int64, o, n int64) bool {
 	simrt.Yield(site)
-	return atomic.CompareAndSwapInt64(p, o, n)
+	r := atomic.CompareAndSwapInt64(p, o, n)
+	simrt.Yield(site)
+	return r
 }
 func CompareAndSwapUint64(p *uint64, o, n uint64) bool {
 	simrt.Yield(site)
-	return atomic.CompareAndSwapUint64(p, o, n)
+	r := atomic.CompareAndSwapUint64(p, o, n)
+	simrt.Yield(site)
+	return r
 }
 func CompareAndSwapInt32(p *int32, o, n int32) bool {
 	simrt.Yield(site)
-	return atomic.CompareAndSwapInt32(p, o, n)
+	r := atomic.CompareAndSwapInt32(p, o, n)
+	simrt.Yield(site)
+	return r
 }
 func CompareAndSwapUint32(p *uint32, o, n uint32) bool {
 	simrt.Yield(site)
-	return atomic.CompareAndSwapUint32(p, o, n)
+	r := atomic.CompareAndSwapUint32(p, o, n)
+	simrt.Yield(site)
+	return r
 }
